@@ -94,6 +94,7 @@ Proof.
   induction ts as [|t r IH]; intros [|c cr] h tbl h1 tbl1 vs Hs H; cbn in H;
     try (inversion H; subst; csplit; auto using step_refl; intros v []).
   destruct (N.eqb_spec (tp_name t) 0) as [Hz|Hz]; [eauto|].
+  destruct (existsb (fun t' => N.eqb (tp_name t') (tp_name t)) r) eqn:Edup; [eauto|].
   destruct (lookup (tp_name t) tbl) as [v|] eqn:El.
   - destruct (deser_inits (updv h v (with_const (Some c))) tbl vis r cr) as [[[h2 t2] vs']|e] eqn:Er; [|discriminate].
     inversion H; subst; clear H.
